@@ -34,7 +34,7 @@ def dispatch(pid: str, tier: str) -> int:
     if pid == 'C16':
         from harness import check_det
         return check_det.c16(tier)
-    if pid in ('X01', 'X02', 'X03'):
+    if pid in ('X01', 'X02', 'X03', 'X04'):
         from harness import check_extra
         return getattr(check_extra, pid.lower())(tier)
     raise MachineryError(f'no check for {pid}')
